@@ -35,6 +35,7 @@ import (
 	"github.com/osmosis-labs/osmosis/v31/app"
 	clmodel "github.com/osmosis-labs/osmosis/v31/x/concentrated-liquidity/model"
 	cltypes "github.com/osmosis-labs/osmosis/v31/x/concentrated-liquidity/types"
+	clgenesis "github.com/osmosis-labs/osmosis/v31/x/concentrated-liquidity/types/genesis"
 	"github.com/osmosis-labs/osmosis/v31/x/gamm/pool-models/balancer"
 	"github.com/osmosis-labs/osmosis/v31/x/gamm/pool-models/stableswap"
 	gammtypes "github.com/osmosis-labs/osmosis/v31/x/gamm/types"
@@ -148,6 +149,13 @@ func c19Genesis(a *app.OsmosisApp, gs app.GenesisState) {
 	cdc.MustUnmarshalJSON(gs[minttypes.ModuleName], &mg)
 	mg.Params.ReductionPeriodInEpochs = 2
 	gs[minttypes.ModuleName] = cdc.MustMarshalJSON(&mg)
+	// concentrated pools whose two accumulator families are scaled differently (as on the live chain since v25):
+	// incentives accumulators scaled for every pool, spread-reward accumulators unscaled for pool ids up to 1000
+	var clg clgenesis.GenesisState
+	cdc.MustUnmarshalJSON(gs[cltypes.ModuleName], &clg)
+	clg.IncentivesAccumulatorPoolIdMigrationThreshold = 0
+	clg.SpreadFactorPoolIdMigrationThreshold = 1000
+	gs[cltypes.ModuleName] = cdc.MustMarshalJSON(&clg)
 	// protorev: an admin the history can act as (hot routes, developer account)
 	var prg protorevtypes.GenesisState
 	cdc.MustUnmarshalJSON(gs[protorevtypes.ModuleName], &prg)
@@ -540,6 +548,9 @@ func (g *c19Gen) randomBlock() ([][]byte, []string) {
 			}
 		case 34: // a swap or single-asset join larger than the pool's own reserve of the token going in
 			pid := uint64([]int{1, 2, 4, 5, 3}[r.Intn(5)])
+			if g.forceKind == 34 {
+				pid = 4
+			}
 			denoms, err := ch.App.PoolManagerKeeper.RouteGetPoolDenoms(ch.Ctx, pid)
 			if err != nil || len(denoms) < 2 {
 				continue
@@ -789,6 +800,9 @@ func c19RunRole(c *vk.Ctx) bool {
 				// every history has a pool creation that fails as a whole and, after at least one export point, the
 				// creation of a pool of another type (which is handed the same pool id)
 				g.forceKind = 0
+				if b == 7 {
+					g.forceKind = 34 // a swap larger than the reserve on the pool with weights 3:1:1, before the first export
+				}
 				if b == 9 {
 					g.forceKind = 32
 				}
